@@ -59,7 +59,10 @@ check("C01",
       "numpy.repeat index-expansion laws; every real mate() call on provenance-tagged parents (700/2800 random "
       "configurations over all seven protocols: selfs, repeated parents, scalar and per-cross array counts, nself 0..3, "
       "exact 0/0.5/1 probabilities, Generator and RandomState, non-zero counters) is validated by TLC against the "
-      "relation, the progeny count/order/names/family labels/counters, parent immutability and marker metadata.",
+      "relation, the progeny count/order/names/family labels/counters, parent immutability and marker metadata. One plan "
+      "(configuration and count arrays) is handed to two successive mate() calls; large calls (block seams) are validated through "
+      "summaries; the matrix-level helpers under the protocols (mat_mate, dense_cross, mat_dh, dense_dh) are called directly with "
+      "the female / male arrays being one array, separate arrays or two views of one population array.",
       "Parents carry provenance tags (2i+h); the starting copy of a gamete is left free (C02 decides distribution); "
       "crossover probabilities abstracted to classes {=0, in (0,1), >=1}.",
       "TLA+ spec (Mating.tla) model-checked by TLC + TLC validation of recorded mate() executions",
